@@ -570,6 +570,57 @@ def uid(ctx, p):
         ctx.require(c2 == c, "update_uid_counter changed the counter for a non-integer id")
 
 
+NUMERIC_IDS = ["0.0", "2.0", "np.int64(1)", "np.int32(3)", "np.float64(2.0)", "True", "1.5", "-1.0"]
+
+
+@harness("C04.numeric")
+def numeric(ctx, p):
+    """Integer-like ids of other numeric types (floats with integral value, numpy
+    integers and floats): concrete values from a pool, real itertools.count, then
+    enough automatic additions to reach the value - also after copy() and a pickle
+    round trip.  No solver variable except the pool choice and the route."""
+    import numpy as np
+
+    src = NUMERIC_IDS[ctx.choose("id", len(NUMERIC_IDS))]
+    idv = eval(src, {"np": np})
+    route = ["add_edge", "fmt2", "fmt5", "add_node_to_edge"][ctx.choose("route", 4)]
+    then = ["direct", "copy", "pickle"][ctx.choose("then", 3)]
+    cls = p["cls"]
+    ctx.info["op"] = "numeric id"
+    ctx.info["args"] = {"id": src, "route": route, "then": then}
+    with stubs.uninstalled(), warnings.catch_warnings():
+        warnings.simplefilter("ignore")
+        net = {"H": xgi.Hypergraph, "D": xgi.DiHypergraph, "S": xgi.SimplicialComplex}[cls]()
+        mem = ([10], [11]) if cls == "D" else [10, 11]
+        if route == "add_edge":
+            (net.add_simplex if cls == "S" else net.add_edge)(mem, idx=idv)
+        elif route == "fmt2":
+            (net.add_simplices_from if cls == "S" else net.add_edges_from)([(mem, idv)])
+        elif route == "fmt5":
+            (net.add_simplices_from if cls == "S" else net.add_edges_from)({idv: mem})
+        else:
+            if cls == "S":
+                ctx.assume(False)
+            if cls == "D":
+                net.add_node_to_edge(idv, 10, "in")
+                net.add_node_to_edge(idv, 11, "out")
+            else:
+                net.add_node_to_edge(idv, 10)
+                net.add_node_to_edge(idv, 11)
+        if then == "copy":
+            net = net.copy()
+        elif then == "pickle":
+            net = pickle.loads(pickle.dumps(net))
+        before = nets.snap(net)
+        for k in range(5):
+            m2 = ([20 + k], [30 + k]) if cls == "D" else [20 + k, 30 + k]
+            (net.add_simplex if cls == "S" else net.add_edge)(m2)
+        after = nets.snap(net)
+    ok = all(e in after["members"] and nets.same(before["members"][e], after["members"][e]) for e in before["edges"])
+    ctx.require(ok, "an automatic addition altered or replaced an edge whose id is an integer-like number of another type")
+    ctx.require(len(after["edges"]) == len(before["edges"]) + 5, "automatic additions were lost after an integer-like id of another numeric type")
+
+
 def spec(tier, seed):
     units = []
     if tier == "quick":
@@ -599,6 +650,8 @@ def spec(tier, seed):
                 units.append(("C04.prov", {"how": how, "cls": cls, "shape": s}))
     for k in ("int", "str", "tuple"):
         units.append(("C04.uid", {"kind": k, "cls": "-", "shape": None}))
+    for cls in "HDS":
+        units.append(("C04.numeric", {"cls": cls, "shape": None, "kind": "numeric"}))
     return {
         "units": units,
         "caps": {"paths": 200000 if tier == "quick" else 2000000, "wall": 600 if tier == "quick" else 3000},
@@ -613,5 +666,5 @@ def spec(tier, seed):
             "itertools.count replaced by scount; float()/int() shadows in utilities (ids assumed below 2**53 so float() is exact)",
             "ids that travel as strings (standard dict, text parsers) are enumerated over 0..3 instead of symbolic",
         ],
-        "outside": ["non-integer numeric ids (e.g. 2.0, numpy scalars)", "read_* functions on real files (C11)"],
+        "outside": ["symbolic non-int numeric ids (floats and numpy scalars are covered by a concrete pool in C04.numeric)", "read_* functions on real files (C11)"],
     }
